@@ -181,5 +181,7 @@ def check(chk: Check) -> None:
             elif key[0] == 3 and c02._as_set(pg["ref_items"]) == c02._as_set(pr["ref_items"]) and not pr["ref_errors"]:
                 # same set of quads, valid stream: only grouping / order / duplicates / empty default graph differ
                 chk.fail(rb, inst, "pyjelly.integrations.rdflib.serialize.graphs_stream_frames:regroup-through-dataset", f"GRAPHS from a quad generator: rdflib writes rows {pr['frames']}, generic writes {pg['frames']} for the same quads and options")
+            elif not pr["ref_errors"] and not pg["ref_errors"] and (P.only_langcase_differs(pg["ref_items"], pr["ref_items"]) or (key[0] == 3 and c02._as_set(pg["ref_items"]) != c02._as_set(pr["ref_items"]) and c02._as_set(P.fold_langcase(pg["ref_items"])) == c02._as_set(P.fold_langcase(pr["ref_items"])))):
+                chk.fail(rb, inst, P.LANGCASE_CONSTRUCT, f"the rdflib serializer elides a literal that equals the previous statement's only up to the case of its language tag; the generic serializer writes it: {pipejob.first_diff(pg['ref_items'], pr['ref_items'])}")
             else:
                 chk.fail(rb, inst, "pyjelly.integrations:serializers-differ", f"frames differ for the same data and options: {pipejob.first_diff(pg['frozen_frames'], pr['frozen_frames'])}")
